@@ -575,3 +575,69 @@ func expectedRaw(r lrec, imageType int) string {
 
 var knownCanon = map[string]int{}
 var knownApple = map[string]int{}
+
+// singleDirTIFF: a TIFF whose first (and only) directory holds the given entries, values after the directory in entry
+// order (what Canon writes into each CMT box of a CR3 file)
+func singleDirTIFF(big bool, ents []gEnt) []byte {
+	var e enc
+	var out []byte
+	if big {
+		e.bo = binary.BigEndian
+		out = []byte("MM\x00*")
+	} else {
+		e.bo = binary.LittleEndian
+		out = []byte("II*\x00")
+	}
+	out = append(out, e.u32(8)...)
+	sort.SliceStable(ents, func(i, j int) bool { return ents[i].id < ents[j].id })
+	out = append(out, e.u16(uint16(len(ents)))...)
+	type slot struct {
+		at   int
+		data []byte
+	}
+	var slots []slot
+	for _, en := range ents {
+		out = append(out, e.u16(en.id, en.typ)...)
+		out = append(out, e.u32(en.count)...)
+		if len(en.data) <= 4 {
+			v := append(append([]byte{}, en.data...), 0, 0, 0, 0)
+			out = append(out, v[:4]...)
+		} else {
+			slots = append(slots, slot{len(out), en.data})
+			out = append(out, 0, 0, 0, 0)
+		}
+	}
+	out = append(out, 0, 0, 0, 0)
+	for _, s := range slots {
+		copy(out[s.at:], e.u32(uint32(len(out))))
+		out = append(out, s.data...)
+		if len(out)%2 == 1 {
+			out = append(out, 0)
+		}
+	}
+	return out
+}
+
+// inCR3: the record's three directories as the CMT1 / CMT2 / CMT4 boxes of a Canon CR3 file (CMT3 holds an empty maker
+// note), with the other boxes a camera writes around them
+func inCR3(c *Ctx, r lrec, big bool) []byte {
+	var e enc
+	if big {
+		e.bo = binary.BigEndian
+	} else {
+		e.bo = binary.LittleEndian
+	}
+	d0, de, dg := e.dirs(r)
+	meta := &bnode{typ: "uuid", prefix: uuidCR3Meta}
+	meta.kids = append(meta.kids, &bnode{typ: "CNCV", payload: []byte("CanonCR3_001/00.10.00/00.00.00")})
+	if c.Rng.Intn(2) == 0 {
+		meta.kids = append(meta.kids, unknownBox(c, 40))
+	}
+	meta.kids = append(meta.kids, &bnode{typ: "CMT1", payload: singleDirTIFF(big, d0)})
+	meta.kids = append(meta.kids, &bnode{typ: "CMT2", payload: singleDirTIFF(big, de)})
+	meta.kids = append(meta.kids, &bnode{typ: "CMT3", payload: singleDirTIFF(big, nil)})
+	meta.kids = append(meta.kids, &bnode{typ: "CMT4", payload: singleDirTIFF(big, dg)})
+	moov := &bnode{typ: "moov", kids: []*bnode{meta, {typ: "mvhd", payload: make([]byte, 100)}, {typ: "trak", payload: make([]byte, 60)}}}
+	t := &bmffTree{top: []*bnode{{typ: "ftyp", payload: []byte("crx \x00\x00\x00\x01crx isom")}, moov, xpacketBox(c), {typ: "mdat", payload: make([]byte, 64)}}}
+	return t.bytes()
+}
